@@ -311,6 +311,6 @@ def main(tier, replay_path):
         if not replay(h):
             raise common.MachineryError("binding self-test: perturbed expected view accepted")
         if not ops.get("remove_node:refused") or not ops.get("remove_link:ok") or not ops.get("set_speed_pattern:ok"):
-            raise common.MachineryError("vacuity: operations missing from the generated histories: %r" % ops)
+            ck.vacuity("vacuity: operations missing from the generated histories: %r" % ops)
     ck.assumptions += ["operations are applied through the public API with valid arguments (existing patterns/curves/nodes)"]
     return ck.finish()
